@@ -260,3 +260,4 @@ PROP = Prop(
                  'second-order meshes: the vertex partition is judged on vertex indices only'],
     subs=[Sub('tables', body, strategy=strategy, quick=1200, thorough=30000)],
     design_ref='DESIGN.md section 6, C11')
+PROP.rule += ('. Added in round 2: the same oracle on every mesh DERIVED from the generated one after its tables were cached: from_mesh to the same and the sibling (first/second order) class and back, oriented() and from_mesh of it, second-order simplices re-built from the external layout with and without sort_t, translated, tagged, restricted.')
